@@ -235,6 +235,7 @@ func genC01(ctx *Ctx) {
 		e.close()
 	}
 	c01UnpreparedSaturated(ctx, &tag)
+	c01OtherID(ctx, &tag)
 	c01Traced(ctx, &tag)
 }
 
